@@ -39,3 +39,15 @@ pub mod timeout_coord {
         }
     }
 }
+
+/// The state of the agent runtime's write task and the components it is built from.
+pub mod write_task {
+    pub use crate::agent::task_verif::*;
+}
+
+/// Backpressure relief strategies.
+pub mod backpressure {
+    pub use crate::backpressure::{
+        BackpressureStrategy, InvalidKey, MapBackpressure, SupplyBackpressure, ValueBackpressure,
+    };
+}
